@@ -34,6 +34,7 @@ type cfg struct {
 	Points string   `json:"points"`
 	SK     string   `json:"sk"`
 	Proto  int      `json:"proto"` // number of protocol-level runs (CKG + collective decryption)
+	Ext    string   `json:"ext,omitempty"` // non-empty: case of the coverage-audit family (ext.go)
 }
 
 func (c cfg) params() (rlwe.Parameters, error) {
@@ -109,18 +110,21 @@ func cases(tier string, seed int64) []eng.Case {
 			}
 		}
 	}
-	return out
+	return append(out, extCases(tier, seed)...)
 }
 
 func init() {
 	eng.Register(&eng.Monitor{
 		ID: "C15", Level: "exploration",
-		Rule:  "cases = every (N,t) with 1<=t<=N<=6 x variants (point family in {1..N, small, around 2^32, >2^32, near 2^64, q_i+-k and multiples, powers of two, mixed}; secret kind in {sampled from Xs, uniform in R_QP, all q-1, mixed with zero keys}; rlwe parameters: ring type, logN, 1..4 Q primes of 20..61 bits, 0..2 P primes). Inside a case the real setup is run by N parties (Shamir polynomial, N^2 shares, aggregation of the received shares in every order for N<=5 (N=6: identity, reverse and 60 sampled orders in the quick tier, all 720 in the thorough tier for logN<=7), each in three accumulation shapes), then for EVERY subset of t parties and EVERY listing order each party derives its additive share; every object is compared with the exact model, the sum of the additive shares with the sum of the original secrets, every k<t request must be refused, and t-1 aggregated shares interpolated by the harness must not give the secret. Some (subset, order) pairs additionally run the collective public-key generation and collective decryption with the additive shares. distinct key = (N, t, point family, chain shape, secret kind, subset mask, listing order); non-trivial = t >= 2 (Lagrange coefficients are used) and not the stock-test shape (points 1..N with the first t parties listed in increasing order).",
+		Rule:  "cases = every (N,t) with 1<=t<=N<=6 x variants (point family in {1..N, small, around 2^32, >2^32, near 2^64, q_i+-k and multiples, powers of two, mixed}; secret kind in {sampled from Xs, uniform in R_QP, all q-1, mixed with zero keys}; rlwe parameters: ring type, logN, 1..4 Q primes of 20..61 bits, 0..2 P primes). Inside a case the real setup is run by N parties (Shamir polynomial, N^2 shares, aggregation of the received shares in every order for N<=5 (N=6: identity, reverse and 60 sampled orders in the quick tier, all 720 in the thorough tier for logN<=7), each in three accumulation shapes), then for EVERY subset of t parties and EVERY listing order each party derives its additive share; every object is compared with the exact model, the sum of the additive shares with the sum of the original secrets, every k<t request must be refused, and t-1 aggregated shares interpolated by the harness must not give the secret. Some (subset, order) pairs additionally run the collective public-key generation and collective decryption with the additive shares. distinct key = (N, t, point family, chain shape, secret kind, subset mask, listing order); non-trivial = t >= 2 (Lagrange coefficients are used) and not the stock-test shape (points 1..N with the first t parties listed in increasing order). Family ext/ (coverage audit): every (N,t) x variants cycling three chain shapes (as above; 8..12 Q primes with 0..4 P primes; a single Q prime with 0..2 P primes) and the point families {x_k=-x_j mod q, consecutive points above 2^40, around q/2, 1..N, near 2^64, q_i+-k, mixed, >2^32}; inside a case the same exact model judges the API used differently: Thresholdizers from a value/pointer/ckks ParameterProvider, two Shamir polynomials per party and epoch (every masking residue row reduced, non-constant and never repeated across calls, parties, epochs), one share receiver re-used for all recipients, shares delivered by copy / MarshalBinary / WriteTo, AggregateShares with all operands aliased, at lower LevelQ/LevelP, and refused (receiver intact) for every level mismatch, five admissible constructions of the Combiner (own point listed or not, duplicates, outsiders, only the other active parties on a fresh Combiner) on all (subset, order) pairs when there are at most 24 and 24 sampled ones otherwise, one call in three writing over the caller's own share, refused requests leaving output and own share intact, t-1 aggregated shares interpolated by the harness judged per residue row, a second sharing epoch with the same Thresholdizers and Combiners, and for one (subset, order) the collective public key, decryption, Galois key and relinearisation key generated by the t parties from their additive shares and by all N parties from their secrets, every key component judged against the ideal secret; distinct key = (ext, N, t, point family, chain shape, secret kind, subset mask, listing order), non-trivial = t >= 2.",
 		Cases: cases,
 		Assumptions: []string{
 			"Shamir public points are distinct and non-zero modulo every prime of Q and P (the sharing is only defined for such points; colliding points are not generated)",
 			"the active list handed to GenAdditiveShare has exactly t distinct entries, all known to the Combiner, and contains the caller's own point (the documented 'set of active identities'); lists longer than t, with duplicates or with unknown points are not judged",
 			"protocol noise bounds are worst case: t*floor(B_e+1/2) for the collective public key, t*floor(6*sigma_ks+1/2) for the collective key switch on top of the measured encryption noise",
+			"collective evaluation keys (default gadget parameters): every component b + a*s_out - P*s_in is at most k*floor(B_e+1/2) for a Galois key of k parties and c*(|s_ideal|_1 + k*H)*k*B + k*B for the relinearisation key (documented noise s*e0 + u*e1 + e2; |s_ideal|_1 measured exactly, H = worst-case l1 norm of one ephemeral secret, c = 2 in the conjugate-invariant ring); the relinearisation run is skipped when that bound exceeds QP/8",
+			"freshness checks are probabilistic with error < 2^-100: a uniform residue row of >= 16 residues modulo a prime of >= 19 bits is neither constant nor equal to another row, and agrees with a fixed row in fewer than max(8, n/4) places",
+			"AggregateShares on operands of equal lower levels adds the rows that are present (the method selects the ring level from its operands); Combiner output may alias the own share (element-wise product)",
 			"model arithmetic (bits.Mul64/Div64) is correct; the NTT/Montgomery kernels used to compute phases are the ones judged by C01",
 		},
 	})
